@@ -95,3 +95,34 @@ def run(prog, rule="R-VERDICT"):
                                                     "*result = 1 is reachable without having passed the test of basisstat.%s" % cfg["flag"].split("::")[1]))
         res.floor("%s: dependency pairs" % fn, len(pairs), 6)
     return res
+
+
+def run_subject(prog, rule="R-SUBJECT", floor=3):
+    """the verdict is about the caller's basis: in every exact verdict function (the functions of exact.c with a QSbasis * parameter - found by
+    signature, not by name) the basis parameter variable is never assigned, so every use of it,
+    including the call that produces the verdict, refers to the record the caller supplied."""
+    res = RuleResult(rule, "an exact verdict function never re-points its basis parameter: every use of it refers to the caller's record")
+    n = 0
+    for f in sorted(prog.funcs.values(), key=lambda x: x.key):
+        if f.live is None or not f.unit.endswith("qsopt_ex/exact.c"):
+            continue
+        bk = [k for k, p_ in enumerate(f.params) if "QSbasis *" in p_[1] or "qsbasis *" in p_[2]]
+        if not bk:
+            continue
+        for k in bk:
+            n += 1
+            res.obligations += 1
+            res.nontrivial += 1
+            bad = None
+            for b, i, e in f.elements():
+                if e[0] in ("A", "U") and is_var(e[1][2]) and strip(e[1][2])[1] == "p%d" % k:
+                    bad = e
+            if bad is not None:
+                res.violations.append(Violation(rule, "%s|basis parameter %s re-pointed" % (f.name, f.params[k][0]), f.name, short_loc(bad[2]),
+                                                "%s assigns its basis parameter: what follows (the optimality test, the rational check) judges another record than "
+                                                "the one the caller asked about" % show(bad[1])[:70]))
+            else:
+                res.sample({"function": f.name, "parameter": f.params[k][0], "verdict": "never assigned"}, limit=8)
+    res.counts["verdict_functions_with_a_basis_parameter"] = n
+    res.floor("verdict functions with a basis parameter", n, floor)
+    return res
